@@ -21,7 +21,7 @@ RULE = ('seeded generator over input shape (1x1..24x24 quick / ..64 thorough; ev
 ASSUMPTIONS = ['numpy longdouble (80-bit) arithmetic is the reference for the defining sum',
                'phase arguments bounded (|2 pi alpha x u| < 1e4 rad)']
 PLAN = {'quick': {'gen': 8}, 'thorough': {'gen': 16, 'tests': 1, 'docs': 1}}
-REQUIRED_BUCKETS = ['defaults', 'shift:nearby', 'out:view', 'out:extended-precision-input', 'out:unaligned', 'alpha:narrow-float', 'alpha:extreme', 'in:1x1', 'in:even', 'in:odd', 'in:nonsquare', 'alpha:iso', 'alpha:aniso',
+REQUIRED_BUCKETS = ['defaults', 'reuse', 'shift:nearby', 'out:view', 'out:extended-precision-input', 'out:unaligned', 'alpha:narrow-float', 'alpha:extreme', 'in:1x1', 'in:even', 'in:odd', 'in:nonsquare', 'alpha:iso', 'alpha:aniso',
                     'shift0', 'shift+offset', 'unitary:True', 'unitary:False', 'out:given', 'out:none',
                     'inverse:unitary', 'inverse:nonunitary', 'inverse:general', 'cache:evict', 'sweep', 'out:aliased-tall',
                     'refused-then-reused']
